@@ -172,20 +172,37 @@ Definition touched (o : op) : option bytes :=
 
 Definition writes (s : sop) : option bytes :=
   match s with
-  | SWrite cn _ | SWriteField cn _ _ | SAppend cn _ | SRemove cn | SRemoveField cn _ => Some cn
+  | SWrite cn _ | SWriteField cn _ _ | SAppend cn _ | SRemove cn | SRemoveField cn _
+  | SCookieWrite cn _ _ | SCookieRemove cn _ => Some cn
   | _ => None
   end.
+
+Lemma sstep_other a s cn' :
+  (match s with SRemovePrefix _ => False | _ => True end) ->
+  (forall cn, writes s = Some cn -> beq cn cn' = false) ->
+  a_vals (fst (sstep a s)) cn' = a_vals a cn' /\ a_asg (fst (sstep a s)) cn' = a_asg a cn'.
+Proof.
+  intros Hp Hw.
+  destruct s as [cn k c|cn v|cn k v|cn s|cn|cn k|p|cn k s|cn k| |]; try (exfalso; exact Hp);
+    try (split; reflexivity); specialize (Hw cn eq_refl); unfold sstep; cbn [fst snd].
+  - destruct v; cbn [fst a_vals a_asg]; rewrite !(upd_other _ cn _ cn' Hw); split; reflexivity.
+  - cbn [a_vals a_asg]. rewrite !(upd_other _ cn _ cn' Hw). split; reflexivity.
+  - cbn [a_vals a_asg]. rewrite !(upd_other _ cn _ cn' Hw). split; reflexivity.
+  - cbn [a_vals a_asg]. rewrite !(upd_other _ cn _ cn' Hw). split; reflexivity.
+  - cbn [a_vals a_asg]. rewrite !(upd_other _ cn _ cn' Hw). split; reflexivity.
+  - cbn [a_vals a_asg]. rewrite !(upd_other _ cn _ cn' Hw). split; reflexivity.
+  - destruct (all_vals a cn) as [|l0 ls]; [split; reflexivity|].
+    destruct (HdrCookie.remove_cookie (l0 :: ls) k); cbn [a_vals a_asg];
+      rewrite ?(upd_other _ cn _ cn' Hw); split; reflexivity.
+Qed.
 
 Lemma sstep_frame a s cn' key ck :
   (match s with SRemovePrefix _ => False | _ => True end) ->
   (forall cn, writes s = Some cn -> beq cn cn' = false) ->
   snd (sstep (fst (sstep a s)) (SRead cn' key ck)) = snd (sstep a (SRead cn' key ck)).
 Proof.
-  intros Hp Hw.
-  destruct s as [cn k c|cn v|cn k v|cn s|cn|cn k|p| |]; try (exfalso; exact Hp); try reflexivity;
-    try (destruct v); specialize (Hw cn eq_refl);
-    unfold sstep; cbn [fst snd]; unfold first_val; cbn [a_vals a_asg];
-    rewrite ?(upd_other _ cn _ cn' Hw); reflexivity.
+  intros Hp Hw. destruct (sstep_other a s cn' Hp Hw) as [H1 H2].
+  unfold sstep at 1 3. cbn [snd]. unfold first_val, all_vals. rewrite H1, H2. reflexivity.
 Qed.
 
 Lemma classify_writes kd o cn :
